@@ -238,7 +238,7 @@ def build(repo=None):
 
     # ================================================================== C17: read-frame of the checked object
     META_ATTRS = {"shape", "dtype", "ndim", "size", "nbytes", "itemsize", "aval", "weak_type", "sharding", "device", "devices", "__class__"}
-    SAFE_CALLEES = {"isinstance", "hasattr", "type", "id", "len"}  # len(array) is static (shape[0])
+    SAFE_CALLEES = {"isinstance", "hasattr", "type", "len"}  # len(array) is static (shape[0]); id()/hash() are NOT: tracing gives every leaf its own tracer object
 
     def analyse(fn, tainted_params, label, modrel, depth=0):
         """array-valued taint: names bound to the checked object (or data derived from it other than static metadata)."""
@@ -365,6 +365,58 @@ def build(repo=None):
                 if (uses_args or plain) and callee not in ("fn", "param_fn", "full_fn", "signature.bind", "param_signature.bind", "wrapped_fn_impl", "_get_problem_arg"):
                     bad.append(callee)
         ob(f"C17:call-arguments-flow-only-to-bind/checkers/fn/error-localisation[{nested.name}@{nested.lineno}]", not bad, ["C17", "C07"], callees=bad)
+    # PyTree checks: the tree goes only to tree_flatten (structure is static under tracing) and each leaf only to the leaf-type check;
+    # object identity, hashing, truth value or comparison of a tree or leaf is never consulted (one array used twice becomes two tracers)
+    pm = get("jaxtyping/_pytree_type.py")
+    flow_viol = []
+    for q in ("_MetaPyTree.__instancecheck__", "_MetaPyTree._check"):
+        f = pm.func(q)
+        nested_fns = [n for n in ast.walk(f) if isinstance(n, ast.FunctionDef) and n is not f]
+        inner = {id(x) for nf in nested_fns for x in ast.walk(nf)} | {id(x) for lam in ast.walk(f) if isinstance(lam, ast.Lambda) for x in ast.walk(lam)}
+
+        def own_nodes(scope_fn):
+            """nodes of scope_fn outside nested defs / lambdas (their parameters are other variables, even if spelled alike)"""
+            if scope_fn is f:
+                return [n for n in ast.walk(f) if id(n) not in inner]
+            return [n for n in ast.walk(scope_fn) if not any(id(n) in {id(x) for x in ast.walk(o)} for o in nested_fns if o is not scope_fn and o in list(ast.walk(scope_fn)))]
+
+        ALLOWED = {"tree": {"_check", "tree_flatten"}, "list": {"enumerate", "len"}, "leaf": {"is_check_leaftype", "is_flatten_leaftype", "is_leaftype", "accepts_leaftype"}}
+        scopes = [(f, {"obj"}, set(), set())] + [(nf, set(), set(), {a.arg for a in nf.args.args}) for nf in nested_fns]
+        for scope_fn, tree_names, list_names, leaf_names in scopes:
+            nodes = own_nodes(scope_fn)
+            for n in nodes:
+                if isinstance(n, ast.Assign) and isinstance(n.value, ast.Call) and getattr(n.value.func, "attr", getattr(n.value.func, "id", "")) in ("tree_flatten", "tree_leaves") \
+                        and n.value.args and isinstance(n.value.args[0], ast.Name) and n.value.args[0].id in tree_names:
+                    t = n.targets[0]
+                    first = t.elts[0] if isinstance(t, ast.Tuple) else t
+                    if isinstance(first, ast.Name):
+                        list_names.add(first.id)
+            for n in nodes:
+                if isinstance(n, (ast.For, ast.comprehension)):
+                    it = n.iter
+                    src = it.args[0] if isinstance(it, ast.Call) and getattr(it.func, "id", "") == "enumerate" and it.args else it
+                    if isinstance(src, ast.Name) and src.id in list_names:
+                        tgt = n.target.elts[-1] if isinstance(n.target, ast.Tuple) else n.target
+                        if isinstance(tgt, ast.Name):
+                            leaf_names.add(tgt.id)
+            accounted = set()
+            for n in nodes:
+                if isinstance(n, ast.Call):
+                    callee = n.func.id if isinstance(n.func, ast.Name) else n.func.attr if isinstance(n.func, ast.Attribute) else "?"
+                    for a in n.args:
+                        if isinstance(a, ast.Name):
+                            kind = "tree" if a.id in tree_names else "list" if a.id in list_names else "leaf" if a.id in leaf_names else None
+                            if kind and callee in ALLOWED[kind]:
+                                accounted.add(id(a))
+                elif isinstance(n, ast.Compare) and isinstance(n.left, ast.Name) and n.left.id in tree_names and len(n.ops) == 1 and isinstance(n.ops[0], (ast.Is, ast.IsNot)) \
+                        and isinstance(n.comparators[0], ast.Constant) and n.comparators[0].value is None:
+                    accounted.add(id(n.left))
+                elif isinstance(n, (ast.For, ast.comprehension)) and isinstance(n.iter, ast.Name) and n.iter.id in list_names:
+                    accounted.add(id(n.iter))
+            for n in nodes:
+                if isinstance(n, ast.Name) and isinstance(n.ctx, ast.Load) and n.id in (tree_names | list_names | leaf_names) and id(n) not in accounted:
+                    flow_viol.append(f"{q}:{n.lineno}:{n.id}")
+    ob("C17:pytree:the-tree-goes-only-to-tree_flatten-and-each-leaf-only-to-the-leaf-type-check(no-identity,hash,truth,comparison)", not flow_viol, ["C17", "C08"], uses=flow_viol[:8])
     ob("canary-struct:frames-analysed-functions", len(path_fns) >= 20, ["C06", "C12", "C17"], count=len(path_fns))
     return {"unit": NAME, "functions": functions, "obligations": obligations, "paths": 0, "stats": {"write_sites": n_sites, "functions": len(path_fns)},
             "assumptions": [
